@@ -59,3 +59,14 @@ Print Assumptions C11_peek_is_next_read.
 Print Assumptions C11_reset_returns_to_start.
 Print Assumptions C11_peeked_position_is_position_after_read.
 Print Assumptions C11_peek_at_end.
+
+(* State space: the objects this property's model stands for have exactly the fields the model accounts for (StateSpace.v;
+   gen/StateSpaceGen.v is regenerated from the Go sources on every run). A new field - a cache, a memo, a counter - is state
+   the model does not have, so the theorems above would no longer be about the object. *)
+From Coq Require Import String.
+Require Import StateSpaceGen StateSpace.
+Open Scope string_scope.
+Theorem C11_state_space :
+  fields_of "io.StringScanner" = fields ["content"; "position"; "line"; "column"].
+Proof. vm_compute. repeat split; reflexivity. Qed.
+Print Assumptions C11_state_space.
